@@ -1276,14 +1276,18 @@ def shard(ctx):
          "character class / C0 byte x 3 encodings", esc_prefix_cases()),
         ("every UTF-8-shaped sequence (lead 0xC0-0xF7 x every second byte x extreme later bytes), character or not", utf8_shape_cases()),
         ("every two-byte character of gbk / big5 / uhc / euc-jp (by Python's codecs): whole and split", dbcs_cases()),
-        ("a byte >= 0x80 (all 128) in front of every byte that is no second half (0x00-0x3F, DEL), in front of the "
-         "ESC-led forms, and four of them in front of every recognised item x double-byte / utf-8 / iso8859-1", stray_high_byte_cases()),
     ]
     for name, cases in sweeps:
         if ctx.failure is None:
             ctx.sweep("stream", cases, nontrivial=is_nontrivial, classify=classify, exhaustive_name=name)
     if ctx.failure is None:
         ctx.given("sync", _sync_case(), ctx.scale(100, 3000), classify=classify_sync)
+    if ctx.failure is None:
+        ctx.sweep(
+            "stream", stray_high_byte_cases(), nontrivial=is_nontrivial, classify=classify,
+            exhaustive_name="a byte >= 0x80 (all 128) in front of every byte that is no second half (0x00-0x3F, DEL), in front of "
+            "the ESC-led forms, and four of them in front of every recognised item x double-byte / utf-8 / iso8859-1",
+        )
     if ctx.failure is None:
         ctx.given("stream", _stream_case(max_frags=ctx.scale(4, 6)), ctx.scale(1200, 60000),
                   nontrivial=is_nontrivial, classify=classify)
